@@ -74,7 +74,9 @@ def mk_prop(k: int, names: list, v: str = "val"):
     if k == 7:
         return {"opts": {"a": 1, "b": [True], "c": {"d": v}}}, {"opts": '{"a":1,"b":[true],"c":{"d":"' + v.replace('"', '\\"') + '"}}'}
     if k == 8:
-        return {"onClick": jsx("() => f(1)")}, {"onClick": "()=>f(1)"}
+        # a jsx() expression and a plain string with exactly the same text must still be written differently
+        return {"onClick": jsx("() => f(1)"), "same": "() => f(1)", "go": "reset", "goX": jsx("reset")}, \
+            {"onClick": "()=>f(1)", "same": '"() => f(1)"', "go": '"reset"', "goX": "reset"}
     if k == 9:
         names.append("prop-tag")
         return {"icon": Tag("i", dep("prop-tag"), "x", class_="k")}, {"icon": "React.createElement('i',{\"class\":\"k\"},\"x\")"}
